@@ -382,117 +382,167 @@ class Tail:
         ex.opaque_scalars = True
         ex.allow_sub = True
         ex.ignore_out = self.ignore_out
+        ex.track_old = True
         try:
             ex.stmt(lp, [], {}, {})
         except Unsupported as e:
             raise NotUnderstood('loop at %s: %s' % (self.f.unit.where(lp), e))
+        before = {k_: dict(v_) for k_, v_ in self.vec.items()}
+        wrote = set()
         for c in ex.contribs:
-            arr = c.out[0]
-            ext_name = None
-            if len(c.out[1]) == 3 and not str(c.out[1][0]).startswith('@'):
-                # a cell of block k of a tensor:  T[k, i, j]  is cell [i, j] of the matrix named  T[k]
-                ext_name = '%s->m[%s]' % (arr[2:] if arr.startswith('L:') else arr, c.out[1][0])
-                arr = '%s[%s]' % (arr, c.out[1][0])
-                c.out = (arr, list(c.out[1][1:]))
-            name = arr[2:] if arr.startswith('L:') else self.pnames[int(arr[1:])] if arr.startswith('$') and '->' not in arr and '[' not in arr else None
-            oi_ = [str(x) for x in c.out[1]]
-            lvs_ = {l[0]: l for l in c.loops}
-            if name is not None and name in self.mat and c.mode == '=' and len(oi_) == 2 and sum(1 for x in oi_ if x in lvs_) == 1 and \
-                    len(c.term.atoms()) == 1 and c.term.d == Poly.const(1):
-                # one row or one column of a local matrix is filled from a vector:  M[k][i] = v[i]  /  M[i][k] = v[i]
-                at_ = list(c.term.atoms())[0]
-                run_ = [x for x in oi_ if x in lvs_][0]
-                fixed_ = [x for x in oi_ if x not in lvs_][0]
-                if c.term.n == Poly.atom(at_) and at_.startswith('L:') and at_.count('[') == 1 and at_.endswith('[%s]' % run_) and \
-                        str(lvs_[run_][1]) == '0' and lvs_[run_][3] == 1:
-                    src_ = at_[2:].split('[')[0]
-                    kind_ = 'row' if oi_[0] == fixed_ else 'col'
-                    self.linestores.append((name, kind_, fixed_, src_, dict(self.v(src_)), str(lvs_[run_][2]), c.node))
-                    self.mat[name] = {('M', name): ONE}        # from here on an opaque matrix whose rows / columns are the recorded vectors
+            # a temporary that kept the value a cell had before this loop overwrote it: resolved against the vector as it was when the loop started,
+            # which is that value only if the loop has not written the vector twice
+            olds = [a_ for a_ in c.term.atoms() if a_.startswith('OLD:')]
+            if olds:
+                ren = {}
+                for a_ in olds:
+                    vn = a_[4:].split('[')[0]
+                    vn = vn[2:] if vn.startswith('L:') else vn
+                    if vn not in before or list(wrote).count(vn) > 1:
+                        raise NotUnderstood('a temporary holds an earlier value of %s' % a_[4:])
+                    ren[a_] = Poly.atom(a_[4:])
+                c.term = Rat(c.term.n.subst(ren), c.term.d.subst(ren))
+                c._use_before = {a_[4:].split('[')[0][2:] if a_[4:].startswith('L:') else a_[4:].split('[')[0] for a_ in olds}
+            else:
+                c._use_before = set()
+            swapped = {}
+            for vn_ in c._use_before:
+                if vn_ in self.vec:
+                    swapped[vn_] = (self.vec[vn_], dict(before[vn_]))
+                    self.vec[vn_] = swapped[vn_][1]
+            try:
+                arr = c.out[0]
+                ext_name = None
+                if len(c.out[1]) == 3 and not str(c.out[1][0]).startswith('@'):
+                    # a cell of block k of a tensor:  T[k, i, j]  is cell [i, j] of the matrix named  T[k]
+                    ext_name = '%s->m[%s]' % (arr[2:] if arr.startswith('L:') else arr, c.out[1][0])
+                    arr = '%s[%s]' % (arr, c.out[1][0])
+                    c.out = (arr, list(c.out[1][1:]))
+                name = arr[2:] if arr.startswith('L:') else self.pnames[int(arr[1:])] if arr.startswith('$') and '->' not in arr and '[' not in arr else None
+                oi_ = [str(x) for x in c.out[1]]
+                lvs_ = {l[0]: l for l in c.loops}
+                if name is not None and name in self.mat and c.mode == '=' and len(oi_) == 2 and sum(1 for x in oi_ if x in lvs_) == 1 and \
+                        len(c.term.atoms()) == 1 and c.term.d == Poly.const(1):
+                    # one row or one column of a local matrix is filled from a vector:  M[k][i] = v[i]  /  M[i][k] = v[i]
+                    at_ = list(c.term.atoms())[0]
+                    run_ = [x for x in oi_ if x in lvs_][0]
+                    fixed_ = [x for x in oi_ if x not in lvs_][0]
+                    if c.term.n == Poly.atom(at_) and at_.startswith('L:') and at_.count('[') == 1 and at_.endswith('[%s]' % run_) and \
+                            str(lvs_[run_][1]) == '0' and lvs_[run_][3] == 1:
+                        src_ = at_[2:].split('[')[0]
+                        kind_ = 'row' if oi_[0] == fixed_ else 'col'
+                        self.linestores.append((name, kind_, fixed_, src_, dict(self.v(src_)), str(lvs_[run_][2]), c.node))
+                        self.mat[name] = {('M', name): ONE}        # from here on an opaque matrix whose rows / columns are the recorded vectors
+                        continue
+                    raise NotUnderstood('store into %s: %r' % (arr, c))
+                if name is None or (name not in self.vec and name not in self.mat):
+                    # a column of a result container:  OUT[i][c] = v[i]  for every i
+                    oi = [str(x) for x in c.out[1]]
+                    lvs = {l[0]: l for l in c.loops}
+                    cellat = [a_ for a_ in c.term.atoms() if '@' in a_]
+                    fac_ = None
+                    if len(cellat) == 1 and len(oi) == 2:
+                        co_ = c.term.n.coeff(cellat[0])
+                        if co_ is not None and (co_ * Poly.atom(cellat[0])) == c.term.n:
+                            fac_ = Rat(co_, c.term.d)              # OUT[i][c] = s * v[i]: the stored column is the scaled vector
+                            smap_ = {}
+                            for a_ in fac_.atoms():
+                                if a_.startswith('S:'):
+                                    if a_[2:] not in self.sc:
+                                        raise NotUnderstood('scalar %s has no tracked value' % a_[2:])
+                                    smap_[a_] = self.sc[a_[2:]]
+                            fac_ = rsubst(fac_, smap_)
+                    at = cellat
+                    if c.mode == '=' and len(oi) == 2 and len(at) == 1 and fac_ is not None and \
+                            at[0].startswith('L:') and at[0].count('[') == 1 and at[0].endswith('[%s]' % oi[0]) and oi[0] in lvs and \
+                            lvs[oi[0]][3] == 1 and oi[1] not in lvs:
+                        src = at[0][2:].split('[')[0]
+                        ext = str(lvs[oi[0]][2]) if str(lvs[oi[0]][1]) == '0' else 'from %s to %s' % (lvs[oi[0]][1], lvs[oi[0]][2])
+                        self.colstores.append((arr, oi[1], src, vscale(self.v(src), fac_), ext, c.node))
+                        continue
+                    raise NotUnderstood('store into %s: %r' % (arr, c))
+                smap = {}
+                for at in c.term.atoms():
+                    if at.startswith('S:'):
+                        if at[2:] not in self.sc:
+                            raise NotUnderstood('scalar %s has no tracked value' % at[2:])
+                        smap[at] = self.sc[at[2:]]
+                lv = {l[0]: l for l in c.loops}
+                if any(l[3] != 1 for l in c.loops):
+                    raise NotUnderstood('loop at %s does not run in unit steps' % self.f.unit.where(lp))
+                idx = [str(x) for x in c.out[1]]
+                if len(idx) == 1 and name in self.vec and c.mode == '=' and len(c.term.atoms()) == 1 and c.term.d == Poly.const(1):
+                    # whole-vector copy  v[i] = u[i]
+                    at = list(c.term.atoms())[0]
+                    srcname = at[2:].split('[')[0] if at.startswith('L:') else None
+                    if idx[0] not in lv or c.term.n != Poly.atom(at):
+                        raise NotUnderstood('vector store %r' % c)
+                    if at.count('[') != 2 or str(lv[idx[0]][1]) != '0':
+                        self.covered(lv[idx[0]], ('%s->size' % name, '%s->size' % srcname) + tuple(self.same_size.get(name, ())), name, lp)
+                    if at.startswith('L:') and at.endswith('[%s]' % idx[0]) and at.count('[') == 1:
+                        self.vec[name] = dict(self.v(at[2:].split('[')[0]))
+                    elif at.count('[') == 2 and at.split('[')[1] == idx[0] + ']' and not at.startswith('L:') and at.split('[')[2][:-1] not in lv:
+                        # a column of a matrix the routine reads:  v[i] = M[i][c]  -- an opaque base vector named after the column
+                        self.vec[name] = {'%s[:,%s]' % (at.split('[')[0], at.split('[')[2][:-1]): ONE}
+                    else:
+                        raise NotUnderstood('%s is filled from %s, a source the interpreter does not know' % (name, at))
                     continue
-                raise NotUnderstood('store into %s: %r' % (arr, c))
-            if name is None or (name not in self.vec and name not in self.mat):
-                # a column of a result container:  OUT[i][c] = v[i]  for every i
-                oi = [str(x) for x in c.out[1]]
-                at = list(c.term.atoms())
-                lvs = {l[0]: l for l in c.loops}
-                if c.mode == '=' and len(oi) == 2 and len(at) == 1 and c.term.n == Poly.atom(at[0]) and c.term.d == Poly.const(1) and \
-                        at[0].startswith('L:') and at[0].count('[') == 1 and at[0].endswith('[%s]' % oi[0]) and oi[0] in lvs and \
-                        lvs[oi[0]][3] == 1 and oi[1] not in lvs:
-                    src = at[0][2:].split('[')[0]
-                    ext = str(lvs[oi[0]][2]) if str(lvs[oi[0]][1]) == '0' else 'from %s to %s' % (lvs[oi[0]][1], lvs[oi[0]][2])
-                    self.colstores.append((arr, oi[1], src, dict(self.v(src)), ext, c.node))
+                if len(idx) == 1 and name in self.vec and c.mode == '=':
+                    # v[i] = v[i] / s   written out: the same scaling as  v[i] /= s
+                    own = Poly.atom('L:%s[%s]' % (name, idx[0]))
+                    if c.term.n.coeff('L:%s[%s]' % (name, idx[0])) is not None and (c.term.n.coeff('L:%s[%s]' % (name, idx[0])) * own) == c.term.n:
+                        fac = Rat(c.term.n.coeff('L:%s[%s]' % (name, idx[0])), c.term.d)
+                        if not any('@' in a_ or a_.startswith('L:') for a_ in fac.atoms()):
+                            c.mode, c.term = '*=', fac
+                if len(idx) == 1 and name in self.vec:
+                    # whole-vector scaling  v[i] *= s   /   v[i] /= s
+                    if idx[0] not in lv:
+                        raise NotUnderstood('loop at %s does not cover the whole of %s' % (self.f.unit.where(lp), name))
+                    self.covered(lv[idx[0]], ('%s->size' % name,) + tuple(self.same_size.get(name, ())), name, lp)
+                    if any(not at.startswith('S:') and ('@' in at or at.startswith('L:')) for at in c.term.atoms()) or c.mode not in ('*=', '/='):
+                        raise NotUnderstood('vector update %r' % c)
+                    s = rsubst(c.term, smap)
+                    if s.is_zero():
+                        raise NotUnderstood('scaling by a value that is identically zero')
+                    self.vec[name] = vscale(self.vec[name], s if c.mode == '*=' else ONE / s)
                     continue
-                raise NotUnderstood('store into %s: %r' % (arr, c))
-            smap = {}
-            for at in c.term.atoms():
-                if at.startswith('S:'):
-                    if at[2:] not in self.sc:
-                        raise NotUnderstood('scalar %s has no tracked value' % at[2:])
-                    smap[at] = self.sc[at[2:]]
-            lv = {l[0]: l for l in c.loops}
-            if any(l[3] != 1 for l in c.loops):
-                raise NotUnderstood('loop at %s does not run in unit steps' % self.f.unit.where(lp))
-            idx = [str(x) for x in c.out[1]]
-            if len(idx) == 1 and name in self.vec and c.mode == '=' and len(c.term.atoms()) == 1 and c.term.d == Poly.const(1):
-                # whole-vector copy  v[i] = u[i]
-                at = list(c.term.atoms())[0]
-                srcname = at[2:].split('[')[0] if at.startswith('L:') else None
-                if idx[0] not in lv or c.term.n != Poly.atom(at):
-                    raise NotUnderstood('vector store %r' % c)
-                if at.count('[') != 2 or str(lv[idx[0]][1]) != '0':
-                    self.covered(lv[idx[0]], ('%s->size' % name, '%s->size' % srcname) + tuple(self.same_size.get(name, ())), name, lp)
-                if at.startswith('L:') and at.endswith('[%s]' % idx[0]) and at.count('[') == 1:
-                    self.vec[name] = dict(self.v(at[2:].split('[')[0]))
-                elif at.count('[') == 2 and at.split('[')[1] == idx[0] + ']' and not at.startswith('L:') and at.split('[')[2][:-1] not in lv:
-                    # a column of a matrix the routine reads:  v[i] = M[i][c]  -- an opaque base vector named after the column
-                    self.vec[name] = {'%s[:,%s]' % (at.split('[')[0], at.split('[')[2][:-1]): ONE}
-                else:
-                    self.vec[name] = {'?%s@%s' % (name, self.f.unit.where(lp)): ONE}   # filled from something else: an opaque vector
-                continue
-            if len(idx) == 1 and name in self.vec:
-                # whole-vector scaling  v[i] *= s   /   v[i] /= s
-                if idx[0] not in lv:
-                    raise NotUnderstood('loop at %s does not cover the whole of %s' % (self.f.unit.where(lp), name))
-                self.covered(lv[idx[0]], ('%s->size' % name,) + tuple(self.same_size.get(name, ())), name, lp)
-                if any(not at.startswith('S:') and ('@' in at or at.startswith('L:')) for at in c.term.atoms()) or c.mode not in ('*=', '/='):
-                    raise NotUnderstood('vector update %r' % c)
-                s = rsubst(c.term, smap)
-                if s.is_zero():
-                    raise NotUnderstood('scaling by a value that is identically zero')
-                self.vec[name] = vscale(self.vec[name], s if c.mode == '*=' else ONE / s)
-                continue
-            if len(idx) == 2 and name in self.mat and c.mode == '+=':
-                # rank-one update  M[i][j] += s * a[i] * b[j]
-                if any(i not in lv for i in idx):
-                    raise NotUnderstood('loop at %s does not cover the whole of %s' % (self.f.unit.where(lp), name))
-                self.covered(lv[idx[0]], ('%s->row' % (ext_name or name),), name, lp)
-                self.covered(lv[idx[1]], ('%s->col' % (ext_name or name),), name, lp)
-                cells = [at for at in c.term.atoms() if not at.startswith('S:') and '@' in at]
-                if len(cells) != 2 or c.term.d.atoms() - set(smap):
-                    raise NotUnderstood('matrix update %r' % c)
-                rowv = [at for at in cells if ('[%s]' % idx[0]) in at and ('[%s]' % idx[1]) not in at]
-                colv = [at for at in cells if ('[%s]' % idx[1]) in at and ('[%s]' % idx[0]) not in at]
-                if len(rowv) != 1 or len(colv) != 1:
-                    raise NotUnderstood('matrix update %r' % c)
-                co = c.term.n.coeff(rowv[0])
-                co = co.coeff(colv[0]) if co is not None else None
-                if co is None or (Poly.atom(rowv[0]) * Poly.atom(colv[0]) * co) != c.term.n:
-                    raise NotUnderstood('matrix update %r' % c)
-                s = rsubst(Rat(co, c.term.d), smap)
-                va_, vb_ = self.fibre(rowv[0], idx[0]), self.fibre(colv[0], idx[1])
-                M = dict(self.mat[name])
-                for ba, ca in va_.items():
-                    for bb, cb in vb_.items():
-                        key = ('outer', ba, bb)
-                        x = M.get(key, ZERO) + s * ca * cb
-                        if x.is_zero():
-                            M.pop(key, None)
-                        else:
-                            M[key] = x
-                self.mat[name] = M
-                continue
-            raise NotUnderstood('store %r' % c)
+                if len(idx) == 2 and name in self.mat and c.mode == '+=':
+                    # rank-one update  M[i][j] += s * a[i] * b[j]
+                    if any(i not in lv for i in idx):
+                        raise NotUnderstood('loop at %s does not cover the whole of %s' % (self.f.unit.where(lp), name))
+                    self.covered(lv[idx[0]], ('%s->row' % (ext_name or name),), name, lp)
+                    self.covered(lv[idx[1]], ('%s->col' % (ext_name or name),), name, lp)
+                    cells = [at for at in c.term.atoms() if not at.startswith('S:') and '@' in at]
+                    if len(cells) != 2 or c.term.d.atoms() - set(smap):
+                        raise NotUnderstood('matrix update %r' % c)
+                    rowv = [at for at in cells if ('[%s]' % idx[0]) in at and ('[%s]' % idx[1]) not in at]
+                    colv = [at for at in cells if ('[%s]' % idx[1]) in at and ('[%s]' % idx[0]) not in at]
+                    if len(rowv) != 1 or len(colv) != 1:
+                        raise NotUnderstood('matrix update %r' % c)
+                    co = c.term.n.coeff(rowv[0])
+                    co = co.coeff(colv[0]) if co is not None else None
+                    if co is None or (Poly.atom(rowv[0]) * Poly.atom(colv[0]) * co) != c.term.n:
+                        raise NotUnderstood('matrix update %r' % c)
+                    s = rsubst(Rat(co, c.term.d), smap)
+                    va_, vb_ = self.fibre(rowv[0], idx[0]), self.fibre(colv[0], idx[1])
+                    M = dict(self.mat[name])
+                    for ba, ca in va_.items():
+                        for bb, cb in vb_.items():
+                            key = ('outer', ba, bb)
+                            x = M.get(key, ZERO) + s * ca * cb
+                            if x.is_zero():
+                                M.pop(key, None)
+                            else:
+                                M[key] = x
+                    self.mat[name] = M
+                    continue
+                raise NotUnderstood('store %r' % c)
+            finally:
+                for vn_, (cur_, marker_) in swapped.items():
+                    if self.vec.get(vn_) is marker_:
+                        self.vec[vn_] = cur_                    # only read through the temporary: the current value stays
+                    else:
+                        wrote.add(vn_)
 
     def stmt(self, s0):
         s = strip(s0)
@@ -1016,8 +1066,12 @@ def predictor(chk, prog):
         l = lv1[lvv[0]]
         if str(l[1]) != '0' or l[3] != 1 or str(l[2]) != '$2':
             problems.append(('sum-range', c1, 'the sum runs over lv in [%s, %s) step %s, not over the first nlv latent variables' % (l[1], l[2], l[3])))
-        if str(lv1[i1][1]) != '0' or str(lv1[i1][2]) != '$0->row' or str(lv1[j1][1]) != '0' or str(lv1[j1][2]) != '$1->yloadings->row':
-            problems.append(('sum-cells', c1, 'the sum is not stored for every object and every response'))
+        # the result is resized to rows(tscore) x rows(yloadings) first: either name of an extent is the same number
+        ROWS = ('$0->row', '$3->row')
+        COLS = ('$1->yloadings->row', '$3->col')
+        if str(lv1[i1][1]) != '0' or str(lv1[i1][2]) not in ROWS or str(lv1[j1][1]) != '0' or str(lv1[j1][2]) not in COLS:
+            problems.append(('sum-cells', c1, 'the sum is not stored for every object and every response (loops over [%s, %s) x [%s, %s))' %
+                             (lv1[i1][1], lv1[i1][2], lv1[j1][1], lv1[j1][2])))
     # zeroed start: the result is resized (zero-filled) before
     if not zero_filled_first(f, pn[3], c1.node):
         problems.append(('start', c1, 'the result is not zero-filled (ResizeMatrix, unconditionally, before the loop) when the sum is accumulated into it: '
@@ -1031,7 +1085,7 @@ def predictor(chk, prog):
         wantt = Rat(A('$1->%s[%s]' % (field, idx[1])))
         if c.mode != mode or not c.term.same(wantt):
             return 'the update is `%s %r`, not `%s %s[j]` with j the response column' % (c.mode, c.term, mode, field)
-        if idx[0] not in lv or str(lv[idx[0]][1]) != '0' or str(lv[idx[0]][2]) != '$3->row':
+        if idx[0] not in lv or str(lv[idx[0]][1]) != '0' or str(lv[idx[0]][2]) not in ('$3->row', '$0->row'):
             return 'not applied to every object'
         if idx[1] not in lv or str(lv[idx[1]][1]) != '0' or str(lv[idx[1]][2]) not in ('$1->ycolaverage->size', '$1->ycolscaling->size', '$1->yloadings->row', '$3->col'):
             return 'not applied to every response column'
@@ -1137,7 +1191,9 @@ def score_predictor(chk, prog):
     i_, j_ = [str(x) for x in d.out[1]]
     want = Rat(Poly.const(0) - A('$1->xloadings[%s][%s]' % (j_, L)) * A('L:%s[%s]' % (tn, i_)))
     lv = {l[0]: l for l in d.loops}
-    if d.mode != '+=' or not d.term.same(want) or str(lv[i_][2]) != '%s->row' % Xn or str(lv[j_][2]) != '%s->col' % Xn or str(lv[i_][1]) != '0' or str(lv[j_][1]) != '0':
+    ROWS_ = ('%s->row' % Xn, '$0->row', '%s->size' % tn, '$3->row')
+    COLS_ = ('%s->col' % Xn, '$0->col', '$1->xloadings->row', '$1->xweights->row', '%s->size' % wn)
+    if d.mode != '+=' or not d.term.same(want) or str(lv[i_][2]) not in ROWS_ or str(lv[j_][2]) not in COLS_ or str(lv[i_][1]) != '0' or str(lv[j_][1]) != '0':
         ok = False
         chk.instance(R, '%s PLSScorePredictor: the deflation is %r' % (f.unit.where(d.node), d), 'refuted')
         chk.violation(Finding('PLS.score-predictor', rel(f.file), f.name, 'deflation', f.unit.where(d.node),
@@ -1223,7 +1279,7 @@ def all_lv(chk, prog):
                 defs.setdefault(l0['referencedDecl'].get('name'), []).append(f.unit.text(r).replace(' ', ''))
     probs = []
     hi = str(L[2])
-    if str(L[1]) != '0' or L[3] != 1 or defs.get(hi) != ['model->b->size']:
+    if str(L[1]) != '0' or L[3] != 1 or not (hi == '$1->b->size' or defs.get(hi) == ['model->b->size']):
         probs.append(('range', 'the blocks run over [%s, %s) with %s = %s, not over every latent variable of the model' % (L[1], hi, hi, defs.get(hi))))
     try:
         third = exprs.to_poly(a[2], byname=True)
@@ -1235,13 +1291,17 @@ def all_lv(chk, prog):
     lv_ = {l[0]: l for l in c.loops}
     jv = [v for v in lv_ if v not in (L[0], str(i_))]
     ny = str(lv_[jv[0]][2]) if len(jv) == 1 else None
-    ok_store = c.mode == '=' and ny is not None and defs.get(ny) == ['model->yloadings->row'] and \
+    ok_store = c.mode == '=' and ny is not None and (ny == '$1->yloadings->row' or defs.get(ny) == ['model->yloadings->row']) and \
         col == A(jv[0]) + A(L[0]) * A(ny) and c.term.same(Rat(A('L:%s[%s][%s]' % (tmp, i_, jv[0])))) and str(lv_[str(i_)][2]) == '$0->row' and \
         str(lv_[str(i_)][1]) == '0' and str(lv_[jv[0]][1]) == '0'
     if not ok_store:
         probs.append(('store', 'the block store is %r, not y[i][n_y*lv + j] = predicted[i][j] for every object i and response j' % c))
     sp = [m for m in walk(f.body) if m.get('kind') == 'CallExpr' and callee_name(m) == 'PLSScorePredictor']
-    if len(sp) != 1 or f.unit.text(call_args(sp[0])[2]).strip() != hi or exprs.path_of(call_args(sp[0])[3], byname=True) != exprs.path_of(a[0], byname=True):
+    try:
+        third_ok = len(sp) == 1 and str(ex.shape_poly(call_args(sp[0])[2], {})) in (hi, '$1->b->size') 
+    except Exception:
+        third_ok = len(sp) == 1 and f.unit.text(call_args(sp[0])[2]).strip() == hi
+    if len(sp) != 1 or not third_ok or exprs.path_of(call_args(sp[0])[3], byname=True) != exprs.path_of(a[0], byname=True):
         probs.append(('scores', 'the scores given to PLSYPredictor are not the ones PLSScorePredictor projects with all %s latent variables' % hi))
     if not probs:
         chk.instance(R, '%s PLSYPredictorAllLV: y[:, n_y*lv + j] = PLSYPredictor(scores, model, lv+1)[:, j], lv in [0, size(b))' % f.unit.where(c.node))
